@@ -119,9 +119,8 @@ FullFails(e) ==
           /\ DescOf(e.sends[l2].s) \notin (safe \cup drawn)
        THEN {<<"C11", "walks-into-mate", D(e.infos[l2].raw)>>} ELSE {}))
   \cup MateClaimFails(root, e.infos, hasHistory)
-  \cup
-  \* C11: a stalemate is never scored as a mate: if the root's best line is claimed "mate 1" the move must mate
-  {}
+  \* (C11, stalemate never scored as mate: a stalemating move announced as `mate 1` fails MateWithin above; the scenario
+  \* generator supplies positions with a stalemating move one ply away)
 
 (***************************************************************************)
 (* srun: the search cut at clock query k, judged against its reference.    *)
